@@ -45,12 +45,15 @@ ALPHABET = {
     # a top-level binding with a sub-pattern (`whole @ (_, _)`): one binding, the trait method declares just the identifier
     "x@(_,_)": ("tup", "destr", 3, None),
     "x@[..]": ("arr", "destr", 2, None),
+    # slice patterns: one binding (takes its name) / two bindings (generated name)
+    "[a,..]": ("arr", "destr", 1, None),
+    "[a,b]": ("arr", "destr", 0, None),
     "N(r#kw)": ("N", "destr", 0, "r#type"),
     "&r#id": ("refi", "destr", 0, "r#v_raw"),
 }
 IMPL_ALPHABET_EXTRA = {"=__impl": ("i32", "plain", 0, "__impl"), "N(=__impl)": ("N", "destr", 0, "__impl"), "=__impl_": ("i32", "plain", 0, "__impl_")}
 # symbols added after round 8: enumerated exhaustively up to length 2 only (plus samples), to keep the quick tier quick
-LATE_SYMBOLS = {"N(é)", "N(__)", "N2(a,λ)", "x@(_,_)", "x@[..]"}
+LATE_SYMBOLS = {"N(é)", "N(__)", "N2(a,λ)", "x@(_,_)", "x@[..]", "[a,..]", "[a,b]"}
 SPECIAL_ONCE = {"N(é)", "N(__)", "N(_u)", "N(=fn_)", "mut =fn", "ref =fn", "N(r#kw)", "&r#id", "r#=arg0", "=fn", "=fn_", "=fn__", "=arg0", "=arg1", "=_arg1", "N(=fn)", "r#=fn"}
 
 
@@ -301,8 +304,8 @@ def build_cases(lists, label, variants, fn_name=FN):
 
 def run(tier, seed):
     rep = core.Report(PROP, tier, seed)
-    rep.rule = ("all parameter pattern lists of length <= L over the alphabet %s (a binding name occurs at most once per list; the five symbols "
-                "added last - non-ASCII / all-underscore bindings, `x @ sub-pattern` - exhaustively up to length 2 and sampled at length 3), "
+    rep.rule = ("all parameter pattern lists of length <= L over the alphabet %s (a binding name occurs at most once per list; the seven symbols "
+                "added last - non-ASCII / all-underscore bindings, `x @ sub-pattern`, slice patterns - exhaustively up to length 2 and sampled at length 3), "
                 "each as fn with deps and as no_deps fn (thorough: also async and module mode); sampled lists of length L+1. "
                 "the lists of length <= 2 plus sampled longer ones (alphabet + `__impl`, `N(__impl)`, `__impl_`) also as parameters of a fn in an "
                 "entraited impl block, static and dynamic selection (names of the generated target-trait method distinct, compiles, trait call = direct call). "
